@@ -76,6 +76,12 @@ func (f *InputField) Resolve(field *Field, args map[string]interface{}) (result 
 		result = f.Type
 	case defaultValueStr:
 		result = f.Default
+		switch f.Default.(type) {
+		case nil, string:
+		default:
+			// The default value is reported as the text of the value, e.g. [1, 2] or {a: 1}.
+			result = valueString(f.Default)
+		}
 	}
 	return
 }
